@@ -283,10 +283,99 @@ def r7_metrics(ctx):
     ctx.check(R, a[:2] == ['self.float_model', 'self._result.quantized_model'] and 'get_validation_func(error_metrics)' in a[4], calls[0], q, calls[0], 'validate() must compare (float model, last quantized model) with the requested metric')
 
 
+def r9_validation_simulation(ctx, R='C18.R9'):
+  """compare_model and ComparisonResult run on two label "models" whose
+  interpreters are stand-ins (tensor values per model, signature and sample are
+  given); the metric is a stand-in that returns a number determined by its two
+  arguments IN ORDER. Oracle, per signature: every tensor present in both
+  models is reported with the mean over that signature's samples of
+  metric(target value, reference value), filed under exactly one of inputs /
+  outputs / constants / intermediates of that signature."""
+  import fractions  # pylint: disable=g-import-not-at-top
+  from sa import absint  # pylint: disable=g-import-not-at-top
+  from sa.consteval import Obj  # pylint: disable=g-import-not-at-top
+  rs = ctx.rule(R, 'validation simulation: per signature, every common tensor gets mean over its samples of metric(target, reference), filed in exactly one group', floor=1)
+  cm = ctx.repo.func(f'{MV}:compare_model')
+  ctx.instance(R)
+  F = fractions.Fraction
+  # two signatures with different tensors, sample counts and subgraphs; one tensor exists only in the reference, one only in the target
+  SIG = {
+      'sa': {'subgraph': 0, 'inputs': ['a_in'], 'outputs': ['a_out'], 'constants': ['a_w'], 'tensors': ['a_in', 'a_w', 'a_mid', 'a_out', 'a_refonly'], 'samples': [1, 2, 3]},
+      'sb': {'subgraph': 1, 'inputs': ['b_in'], 'outputs': ['b_out'], 'constants': [], 'tensors': ['b_in', 'b_mid', 'b_out'], 'samples': [5, 7]},
+  }
+  TARGET_EXTRA = {'sa': ['a_quantized_only'], 'sb': []}
+
+  def value(model, name, sample):   # a deterministic "tensor value"
+    return F(sum(ord(c) for c in name) % 17 + sample * (3 if model == 'ref' else 5), 1 if model == 'ref' else 2)
+
+  def metric(args, kwargs):
+    t, r = args[0], args[1]
+    return 2 * t - r          # not symmetric: the argument order is visible
+  state = {}
+
+  def setup(args, kwargs):
+    model, sample, key = args[0], args[1], args[2]
+    names = list(SIG[key]['tensors']) + (TARGET_EXTRA[key] if model == 'tgt' else [])
+    if model == 'tgt':
+      names = [n for n in names if not n.endswith('refonly')]
+    interp = Obj('x:Interpreter', {'model': model, 'key': key, 'sample': sample['s']})
+    details = {n: {'index': (names.index(n), model, key), 'dtype': 'float32', 'name': n} for n in names}
+    return (interp, SIG[key]['subgraph'] + (0 if model == 'ref' else 10), details)   # the two models number their subgraphs differently
+
+  def get_data(args, kwargs):
+    interp, detail, sg = args[0], args[1], args[2] if len(args) > 2 else kwargs.get('subgraph_index')
+    f = interp.fields
+    idx, model, key = detail['index']
+    if model != f['model'] or key != f['key']:
+      state.setdefault('problems', []).append(f'tensor {detail["name"]} of the {model} model read through the {f["model"]} interpreter')
+    want_sg = SIG[key]['subgraph'] + (0 if model == 'ref' else 10)
+    if sg != want_sg:
+      state.setdefault('problems', []).append(f'tensor {detail["name"]} of the {model} model read from subgraph {sg}; signature {key} runs on subgraph {want_sg} of that model')
+    return value(model, detail['name'], f['sample'])
+  hooks = {
+      f'{MV}:_setup_validation_interpreter': setup,
+      'utils.get_tensor_data': get_data,
+      'utils.get_input_tensor_names': lambda a, k: list(SIG[a[1]]['inputs']),
+      'utils.get_output_tensor_names': lambda a, k: list(SIG[a[1]]['outputs']),
+      'utils.get_constant_tensor_names': lambda a, k: [n for key in SIG for n in SIG[key]['constants'] if SIG[key]['subgraph'] == (a[1] if len(a) > 1 else k.get('subgraph_index', 0))],
+      'utils.get_signature_main_subgraph_index': lambda a, k: SIG[a[1]]['subgraph'],
+      'utils.create_tfl_interpreter': lambda a, k: Obj('x:Interpreter', {'model': a[0]}),
+  }
+  it = absint.Interp(ctx.repo, ctx.ev, hooks=hooks)
+  rs.exhaustive = True
+  for order in (['sa', 'sb'], ['sb', 'sa'], ['sa']):
+    state.clear()
+    data = {k: [{'s': s} for s in SIG[k]['samples']] for k in order}
+    o = it.outcomes(cm, ['ref', 'tgt', data, 'metric-name', shared._StandIn(lambda a, k, kind=None: metric(a, k), 'm'), False], copy_args=False)  # pylint: disable=protected-access
+    label = f'signatures {order}'
+    if len(o) != 1 or o[0].kind != 'return' or not isinstance(o[0].value, Obj):
+      ctx.check(R, False, cm.node, cm, label, f'not decided: {[x.short()[:120] for x in o]}')
+      continue
+    ctx.check(R, not state.get('problems'), cm.node, cm, label, '; '.join(state.get('problems', [])[:2]))
+    res = o[0].value.fields.get('_comparison_results')
+    if not isinstance(res, dict) or sorted(res) != sorted(order):
+      ctx.check(R, False, cm.node, cm, label, f'results filed under {sorted(res) if isinstance(res, dict) else res!r}, expected {sorted(order)}')
+      continue
+    for key in order:
+      r = res[key].fields
+      common_names = [n for n in SIG[key]['tensors'] if not n.endswith('refonly')]
+      want = {n: sum(metric([value('tgt', n, s), value('ref', n, s)], {}) for s in SIG[key]['samples']) / len(SIG[key]['samples']) for n in common_names}
+      groups = {'input_tensors': SIG[key]['inputs'], 'output_tensors': SIG[key]['outputs'], 'constant_tensors': SIG[key]['constants']}
+      groups['intermediate_tensors'] = [n for n in common_names if not any(n in g for g in groups.values())]
+      ctx.check(R, r.get('error_metric') == 'metric-name', cm.node, cm, f'{label}: {key} metric name', 'the metric name must be recorded')
+      for gname, names in groups.items():
+        got = r.get(gname)
+        ok = isinstance(got, dict) and sorted(got) == sorted(names) and all(absint._is_num(got[n]) and abs(F(got[n]) - want[n]) <= F(1, 10 ** 9) for n in names)  # pylint: disable=protected-access
+        shown = {n: (float(v) if absint._is_num(v) else repr(v)) for n, v in got.items()} if isinstance(got, dict) else got  # pylint: disable=protected-access
+        ctx.check(R, ok, cm.node, cm, f'{label}: {key}.{gname} = {shown}',
+                  f'expected {({n: float(want[n]) for n in names})}: the mean over the {len(SIG[key]["samples"])} samples of this signature of metric(target, reference)')
+
+
 def run(ctx):
   f, fam, results = r1_family(ctx)
   r2_pop_partition(ctx)
   r34_pairing_and_metric(ctx, f, fam, results)
   r6_subgraph_index(ctx)
   r7_metrics(ctx)
+  r9_validation_simulation(ctx)
   shared.rule_single_traversal(ctx, 'C18.R8', ['quantizer:Quantizer.validate', 'model_validator:compare_model'])
